@@ -88,6 +88,8 @@ package nsqd
 //@        rPos == old(rPos) + 4 + declLen(old(rPos)) && putMsg.deferred == 0
 //@   ensures[body-is-input] result1 == nil ==> forall k int :: {putMsg.Body[k]} 0 <= k && k < len(putMsg.Body) ==> putMsg.Body[k] == rIn[old(rPos) + 4 + k]
 //@   ensures[ok] result1 == nil ==> result0 == okBytes
+//   what IOLoop relies on from one command to the next (see Exec): a publish leaves the connection object alone
+//@   ensures[context-kept] validPubCtx(p, client) && client.Conn == old(client.Conn) && client.Writer == old(client.Writer) && client.State == old(client.State) && client.Channel == old(client.Channel)
 
 // DPUB <topic> <defer ms>\n[4-byte size][body]. The delay is the decimal number params[2] in milliseconds; it is accepted iff
 // 0 <= delay <= max-req-timeout, in mathematical integers (Duration is in nanoseconds: 1 ms = 1000000).
@@ -117,6 +119,8 @@ package nsqd
 //@   ensures[deferred-by-delay; uses dec_ext] result1 == nil ==> putMsg.deferred == old(delayMs(params[2])) * 1000000
 //@   ensures[body-is-input] result1 == nil ==> forall k int :: {putMsg.Body[k]} 0 <= k && k < len(putMsg.Body) ==> putMsg.Body[k] == rIn[old(rPos) + 4 + k]
 //@   ensures[ok] result1 == nil ==> result0 == okBytes
+//   what IOLoop relies on from one command to the next (see Exec): a publish leaves the connection object alone
+//@   ensures[context-kept] validPubCtx(p, client) && client.Conn == old(client.Conn) && client.Writer == old(client.Writer) && client.State == old(client.State) && client.Channel == old(client.Channel)
 
 // ------------------------------------------------------------------------------------------------------------------
 // MPUB body: [4-byte count] then count times [4-byte size][body]. mpubAt(s, i) = position in the input of the size field of
@@ -177,3 +181,5 @@ package nsqd
 //@   ensures[bodies-are-input] result1 == nil ==> forall j int, k int :: {putMsgs[j].Body[k]} 0 <= j && j < len(putMsgs) && 0 <= k && k < len(putMsgs[j].Body) ==>
 //@        putMsgs[j].Body[k] == rIn[mpubAt(old(rPos) + 4, j) + 4 + k]
 //@   ensures[ok] result1 == nil ==> result0 == okBytes
+//   what IOLoop relies on from one command to the next (see Exec): a publish leaves the connection object alone
+//@   ensures[context-kept] validPubCtx(p, client) && client.Conn == old(client.Conn) && client.Writer == old(client.Writer) && client.State == old(client.State) && client.Channel == old(client.Channel)
